@@ -713,4 +713,132 @@ pub const ARABIC_SHAPER: hb_ot_shaper_t = hb_ot_shaper_t {
 #[allow(unused_imports, dead_code, missing_docs)]
 pub mod verif_hooks {
     use super::*;
+    use alloc::vec::Vec;
+
+    /// `STATE_TABLE` as (prev_action, this_action, next_state) rows, one row per state.
+    pub fn state_table() -> Vec<Vec<(u8, u8, u16)>> {
+        STATE_TABLE.iter().map(|r| r.to_vec()).collect()
+    }
+
+    /// The numeric values of `arabic_action_t::{ISOL,FINA,FIN2,FIN3,MEDI,MED2,INIT,NONE}` in that order.
+    pub fn action_values() -> [u8; 8] {
+        [
+            arabic_action_t::ISOL,
+            arabic_action_t::FINA,
+            arabic_action_t::FIN2,
+            arabic_action_t::FIN3,
+            arabic_action_t::MEDI,
+            arabic_action_t::MED2,
+            arabic_action_t::INIT,
+            arabic_action_t::NONE,
+        ]
+    }
+
+    /// `ARABIC_FEATURES` as 4-byte tags, in array order (index = action value).
+    pub fn arabic_features() -> Vec<[u8; 4]> {
+        ARABIC_FEATURES.iter().map(|t| t.to_bytes()).collect()
+    }
+
+    /// Discriminants of `hb_arabic_joining_type_t::{U,L,R,D,GroupAlaph,GroupDalathRish,T,X}`.
+    pub fn joining_type_values() -> [u8; 8] {
+        use hb_arabic_joining_type_t::*;
+        [
+            U as u8,
+            L as u8,
+            R as u8,
+            D as u8,
+            GroupAlaph as u8,
+            GroupDalathRish as u8,
+            T as u8,
+            X as u8,
+        ]
+    }
+
+    /// (raw table entry, resolved joining type, rb general category) of a character.
+    pub fn joining_type_of(u: char) -> (u8, u8, u8) {
+        let raw = super::super::ot_shaper_arabic_table::joining_type(u);
+        let gc = u.general_category();
+        (raw as u8, get_joining_type(u, gc) as u8, gc.to_rb() as u8)
+    }
+
+    /// `get_joining_type` with an explicit rb general-category number (0..=29).
+    pub fn resolve_joining_type(u: char, gc: u8) -> u8 {
+        let gc = hb_unicode_general_category_t::from_rb(gc as u32);
+        get_joining_type(u, gc) as u8
+    }
+
+    fn bare_buffer(pre: &str, text: &[char], post: &str) -> hb_buffer_t {
+        let mut ub = crate::UnicodeBuffer::new();
+        for (i, c) in text.iter().enumerate() {
+            ub.add(*c, i as u32);
+        }
+        ub.set_pre_context(pre);
+        ub.set_post_context(post);
+        let mut buffer = ub.0;
+        let len = buffer.len;
+        for i in 0..len {
+            let mut sf = buffer.scratch_flags;
+            buffer.info[i].init_unicode_props(&mut sf);
+            buffer.scratch_flags = sf;
+        }
+        buffer
+    }
+
+    /// Runs the real `arabic_joining` on a bare buffer (text + contexts); returns the per-item
+    /// shaping action.
+    pub fn joining(pre: &str, text: &[char], post: &str) -> Vec<u8> {
+        let mut buffer = bare_buffer(pre, text, post);
+        arabic_joining(&mut buffer);
+        (0..buffer.len)
+            .map(|i| buffer.info[i].arabic_shaping_action())
+            .collect()
+    }
+
+    /// What `set_pre_context` / `set_post_context` stored (in array order).
+    pub fn stored_context(pre: &str, post: &str) -> (Vec<char>, Vec<char>) {
+        let b = bare_buffer(pre, &[], post);
+        (
+            b.context[0][..b.context_len[0]].to_vec(),
+            b.context[1][..b.context_len[1]].to_vec(),
+        )
+    }
+
+    /// Runs the real `setup_masks_inner` with the given mask array (index = action) and script on a
+    /// bare buffer whose items start with the given masks; returns (action, mask) per item.
+    pub fn setup_masks(
+        mask_array: [hb_mask_t; 8],
+        script: Option<Script>,
+        pre: &str,
+        text: &[char],
+        masks: &[hb_mask_t],
+        post: &str,
+    ) -> Vec<(u8, hb_mask_t)> {
+        let mut buffer = bare_buffer(pre, text, post);
+        for i in 0..buffer.len {
+            buffer.info[i].mask = masks.get(i).copied().unwrap_or(0);
+        }
+        let plan = arabic_shape_plan_t {
+            mask_array,
+            has_stch: false,
+        };
+        setup_masks_inner(&plan, script, &mut buffer);
+        (0..buffer.len)
+            .map(|i| (buffer.info[i].arabic_shaping_action(), buffer.info[i].mask))
+            .collect()
+    }
+
+    /// Only the Mongolian free-variation-selector copy, on explicit (code point, action) items.
+    pub fn mongolian_copy(items: &[(u32, u8)]) -> Vec<u8> {
+        let mut buffer = hb_buffer_t::new();
+        let _ = buffer.ensure(items.len());
+        buffer.len = items.len();
+        for (i, (cp, a)) in items.iter().enumerate() {
+            buffer.info[i].glyph_id = *cp;
+            buffer.info[i].set_arabic_shaping_action(*a);
+        }
+        mongolian_variation_selectors(&mut buffer);
+        (0..buffer.len)
+            .map(|i| buffer.info[i].arabic_shaping_action())
+            .collect()
+    }
 }
